@@ -42,15 +42,6 @@ type HasFuncDocs interface {
 	FuncDocs() *FuncDoc
 }
 
-func (fd *FuncDoc) getArg(name string) *DocArg {
-	for _, a := range fd.Args {
-		if a.Name == name {
-			return a
-		}
-	}
-	return nil
-}
-
 // LoadForm return a argument list for function or lambda args list.
 func (fd *FuncDoc) LoadForm() Object {
 	dl := make(List, len(fd.Args))
